@@ -6,5 +6,5 @@ for f in des-cqueue/src/stable/mod.rs des/src/runtime/mod.rs des/src/runtime/lim
 sed -i "$S" $M/$F
 if diff -q /repo/$F $M/$F >/dev/null; then echo "MUTATION DID NOT APPLY"; rm -rf $M; exit 3; fi
 diff /repo/$F $M/$F | head -6
-VERIF_REPO=$M /verif/check $P | grep -v "^NOTE" | tail -6; echo "rc=${PIPESTATUS[0]}"
+VERIF_NO_EVIDENCE=1 VERIF_REPO=$M /verif/check $P | grep -v "^NOTE" | tail -6; echo "rc=${PIPESTATUS[0]}"
 rm -rf $M
